@@ -965,7 +965,10 @@ def run_json(ctx, hj, env, rng, quick, stats):
                 for e, ev in enumerate(evs):
                     images.append((cur.hexes(), committed, doc, "flush at op %d before event %d" % (i, e)))
                     n = K.ev_len(ev)
-                    for cpos in (sorted({1, n // 2, n - 1} | {r.below(n) for _ in range(2)}) if quick else range(1, n)):
+                    # thorough: EVERY byte of a write of up to 600 bytes; a longer write (the 10 001-key corpus document is 158 909 bytes: every byte of it
+                    # meant 158 908 images of ~160 KB each, tens of GB) is cut at its edges and at 60 seeded positions
+                    for cpos in (sorted({1, n // 2, n - 1} | {r.below(n) for _ in range(2)}) if quick else
+                                 (range(1, n) if n <= 600 else sorted({1, 2, n // 2, n - 2, n - 1} | {r.below(n) for _ in range(60)}))):
                         if 0 < cpos < n:
                             f2 = cur.copy()
                             f2.apply_event(ev, cut=cpos)
